@@ -766,3 +766,286 @@ func fieldOwnerT(c *kit.Ctx, f *types.Var) *types.Named {
 	}
 	return nil
 }
+
+// ---------------------------------------------------------------- R20.8 --
+
+// runC20Retain: a loop-owned container (map / slice / pointer field of the
+// torrent that the event loop mutates) handed to a callee must not be
+// retained in a field that another goroutine reads. Handing it to a
+// synchronous helper is fine (the loop is the only goroutine running then);
+// keeping a reference in an object whose fields are read from a goroutine
+// root other than the event loop makes that goroutine iterate / index the
+// container while the loop inserts and deletes.
+func runC20Retain(c *kit.Ctx, k *keyer, loop, outside map[*ssa.Function]bool, loopWrites map[tpath]bool, tStruct *types.Named) {
+	refType := func(t types.Type) bool {
+		switch u := t.Underlying().(type) {
+		case *types.Map, *types.Slice:
+			return true
+		case *types.Pointer:
+			_, isStruct := u.Elem().Underlying().(*types.Struct)
+			return isStruct && !syncType(u.Elem())
+		}
+		return false
+	}
+	// fields read in another goroutine's context
+	readOutside := map[*types.Var]*ssa.Function{}
+	var outs []*ssa.Function
+	for f := range outside {
+		if f.Blocks != nil && kit.InModule(kit.FnPkgPath(f)) && !loop[f] {
+			outs = append(outs, f)
+		}
+	}
+	sort.Slice(outs, func(i, j int) bool { return kit.FuncName(outs[i]) < kit.FuncName(outs[j]) })
+	for _, f := range outs {
+		kit.Instrs(f, func(ins ssa.Instruction) {
+			var fld *types.Var
+			switch x := ins.(type) {
+			case *ssa.FieldAddr:
+				if st := derefStructT(x.X.Type()); st != nil {
+					fld = st.Field(x.Field)
+				}
+			case *ssa.Field:
+				if st, ok := x.X.Type().Underlying().(*types.Struct); ok {
+					fld = st.Field(x.Field)
+				}
+			}
+			if fld != nil {
+				if _, ok := readOutside[fld]; !ok {
+					readOutside[fld] = f
+				}
+			}
+		})
+	}
+	// fields a value is retained in (transitively through callees)
+	type pkey struct {
+		fn  *ssa.Function
+		idx int
+	}
+	memo := map[pkey][]*types.Var{}
+	var retained func(v ssa.Value, depth int, seen map[ssa.Value]bool) []*types.Var
+	var ofParam func(g *ssa.Function, idx, depth int) []*types.Var
+	ofParam = func(g *ssa.Function, idx, depth int) []*types.Var {
+		key := pkey{g, idx}
+		if r, ok := memo[key]; ok {
+			return r
+		}
+		memo[key] = nil
+		if depth <= 0 || idx >= len(g.Params) {
+			return nil
+		}
+		r := retained(g.Params[idx], depth, map[ssa.Value]bool{})
+		memo[key] = r
+		return r
+	}
+	retained = func(v ssa.Value, depth int, seen map[ssa.Value]bool) []*types.Var {
+		if seen[v] || v.Referrers() == nil {
+			return nil
+		}
+		seen[v] = true
+		var out []*types.Var
+		for _, r := range *v.Referrers() {
+			switch x := r.(type) {
+			case *ssa.Store:
+				if x.Val != v {
+					continue
+				}
+				if fa, ok := x.Addr.(*ssa.FieldAddr); ok {
+					if st := derefStructT(fa.X.Type()); st != nil && derefNamed(fa.X.Type()) != tStruct {
+						out = append(out, st.Field(fa.Field))
+					}
+				}
+			case *ssa.Call:
+				cc := x.Common()
+				if _, isB := cc.Value.(*ssa.Builtin); isB {
+					continue
+				}
+				for _, g := range c.Callees(x) {
+					if g.Blocks == nil || !kit.InModule(kit.FnPkgPath(g)) {
+						continue
+					}
+					for i, a := range cc.Args {
+						if a != v {
+							continue
+						}
+						pi := i
+						if cc.IsInvoke() {
+							pi = i + 1
+						}
+						out = append(out, ofParam(g, pi, depth-1)...)
+					}
+				}
+			case *ssa.Phi, *ssa.MakeInterface, *ssa.ChangeType, *ssa.Slice:
+				out = append(out, retained(r.(ssa.Value), depth, seen)...)
+			}
+		}
+		return out
+	}
+	var fns []*ssa.Function
+	for f := range loop {
+		if f.Blocks != nil && inPkg(f, c, "torrent") {
+			fns = append(fns, f)
+		}
+	}
+	sort.Slice(fns, func(i, j int) bool { return kit.FuncName(fns[i]) < kit.FuncName(fns[j]) })
+	n := 0
+	for _, f := range fns {
+		kit.Instrs(f, func(ins ssa.Instruction) {
+			call, ok := ins.(*ssa.Call)
+			if !ok {
+				return
+			}
+			cc := call.Common()
+			if _, isB := cc.Value.(*ssa.Builtin); isB {
+				return
+			}
+			for i, a := range cc.Args {
+				if !refType(a.Type()) {
+					continue
+				}
+				if i == 0 && !cc.IsInvoke() && cc.StaticCallee() != nil && cc.StaticCallee().Signature.Recv() != nil {
+					continue // method call on a loop-owned object: the receiver is not handed over
+				}
+				e := kit.Canon(a)
+				if (e.Kind != "field" && e.Kind != "fieldaddr") || e.Field == nil || !ownerIs(e, tStruct) {
+					continue
+				}
+				if !loopWrites[tpath{f1: e.Field}] {
+					continue
+				}
+				n++
+				var bad []string
+				for _, g := range c.Callees(call) {
+					if g.Blocks == nil || !kit.InModule(kit.FnPkgPath(g)) {
+						continue
+					}
+					pi := i
+					if cc.IsInvoke() {
+						pi = i + 1
+					}
+					for _, fld := range ofParam(g, pi, 4) {
+						if rf, ok := readOutside[fld]; ok {
+							bad = append(bad, fmt.Sprintf("%s keeps it in field %s, which %s reads on another goroutine", kit.FuncName(g), fld.Name(), kit.FuncName(rf)))
+						}
+					}
+				}
+				key := k.key(f, "hands torrent."+e.Field.Name()+" to a callee")
+				if len(bad) > 0 {
+					sort.Strings(bad)
+					c.Bad("R20.8", key, posOf(ins), "the event loop passes its own torrent.%s (a live %s it keeps mutating) by reference and the callee retains it where another goroutine reads it: %s", e.Field.Name(), a.Type().Underlying().String(), bad[0])
+				} else {
+					c.OK("R20.8", key, posOf(ins), "torrent.%s is used synchronously by the callee (not retained in a field that another goroutine reads)", e.Field.Name())
+				}
+			}
+		})
+	}
+	c.Floor("R20.8", "loop-owned containers passed by reference from the event loop", n, 3)
+}
+
+// ---------------------------------------------------------------- R16.6 --
+
+// runReusedReadBuffer: a buffer that is allocated once and refilled by a read
+// call on every iteration of a receive loop must not be handed to another
+// goroutine by reference (channel send, go statement, retained in a heap
+// object): the next read overwrites it while the receiver is still parsing
+// it, so a reply can be mixed with, or replaced by, the following datagram.
+func runReusedReadBuffer(c *kit.Ctx, rule string, pkgs ...string) {
+	k := newKeyer()
+	w := &escWalker{c: c, memo: map[escKey]*escRes{}}
+	inLoop := func(b *ssa.BasicBlock) bool {
+		// b is on a cycle
+		seen := map[*ssa.BasicBlock]bool{}
+		var stack []*ssa.BasicBlock
+		stack = append(stack, b.Succs...)
+		for len(stack) > 0 {
+			x := stack[len(stack)-1]
+			stack = stack[:len(stack)-1]
+			if x == b {
+				return true
+			}
+			if seen[x] {
+				continue
+			}
+			seen[x] = true
+			stack = append(stack, x.Succs...)
+		}
+		return false
+	}
+	n := 0
+	for _, fn := range c.ModuleFunctions() {
+		ok := false
+		for _, p := range pkgs {
+			if inPkg(fn, c, p) {
+				ok = true
+			}
+		}
+		if !ok {
+			continue
+		}
+		kit.Instrs(fn, func(ins ssa.Instruction) {
+			call, isCall := ins.(*ssa.Call)
+			if !isCall || !inLoop(call.Block()) {
+				return
+			}
+			cc := call.Common()
+			name := ""
+			if cc.IsInvoke() {
+				name = cc.Method.Name()
+			} else if sc := cc.StaticCallee(); sc != nil {
+				name = sc.Name()
+			}
+			switch name {
+			case "Read", "ReadFrom", "ReadFromUDP", "ReadMsgUDP", "ReadFull", "ReadAtLeast":
+			default:
+				return
+			}
+			for _, a := range cc.Args {
+				sl, isSlice := a.Type().Underlying().(*types.Slice)
+				if !isSlice || !isByte(sl.Elem()) {
+					continue
+				}
+				// root allocation of the buffer
+				root := a
+				for {
+					if s, ok := root.(*ssa.Slice); ok {
+						root = s.X
+						continue
+					}
+					break
+				}
+				var alloc ssa.Value
+				switch x := root.(type) {
+				case *ssa.MakeSlice:
+					alloc = x
+				case *ssa.Alloc:
+					alloc = x
+				}
+				if alloc == nil {
+					continue
+				}
+				ai := alloc.(ssa.Instruction)
+				if inLoop(ai.Block()) {
+					continue // a fresh buffer per iteration
+				}
+				n++
+				key := k.key(fn, "receive buffer reused by "+name)
+				if e, _ := w.follow(alloc, 4, map[ssa.Value]bool{}); e != "" {
+					c.Bad(rule, key, posOf(call), "%s refills one buffer on every iteration of its receive loop and hands (a slice of) that same buffer to another goroutine (%s): the next %s overwrites the datagram while the receiver is still parsing it, a reply can be replaced by or mixed with the next packet", kit.FuncName(fn), e, name)
+				} else {
+					c.OK(rule, key, posOf(call), "the reused receive buffer of %s is copied before anything is handed to another goroutine", kit.FuncName(fn))
+				}
+			}
+		})
+	}
+	c.Floor(rule, "receive loops with a reused buffer", n, 1)
+}
+
+func isByte(t types.Type) bool {
+	b, ok := t.Underlying().(*types.Basic)
+	return ok && b.Kind() == types.Uint8
+}
+
+func init() {
+	registerExtra("C16", func(c *kit.Ctx) {
+		runReusedReadBuffer(c, "R16.6", "internal/tracker/udptracker", "internal/tracker/httptracker", "internal/tracker")
+	})
+}
